@@ -61,7 +61,7 @@ def scopes_stats(rows):
     nontrivial = 0
     outcomes = {}
     nrefs, nshadow, next_, nrec = 0, 0, 0, 0
-    n_so, n_dis, n_vs = 0, 0, 0
+    n_so, n_dis, n_vs, n_rb = 0, 0, 0, 0
     samples = []
     for case, obs, pred in rows:
         h = hashlib.sha1(re.sub(r"^\(case \S+ ", "", case).encode()).digest()
@@ -78,6 +78,7 @@ def scopes_stats(rows):
             continue
         distinct.add(h)
         n_so += 1 if "(order-so " in case or "(order-so)" in case else 0
+        n_rb += 1 if "(order-rb " in case or "(order-rb)" in case else 0
         n_dis += 1 if re.search(r'\) [01] 1 (none|"[^"]*")\)', case) else 0
         n_vs += case.count("(vs ")
         if isinstance(o, list) and len(o) > 2:
@@ -94,7 +95,7 @@ def scopes_stats(rows):
             samples.append({"case": case[:500], "observed": obs[:500]})
     return {"cases": len(rows), "distinct": len(distinct), "distinct_nontrivial": nontrivial, "outcomes": outcomes,
             "reference_occurrences": nrefs, "in_nested_scopes": nshadow, "to_external_namespaces": next_,
-            "cases_applied_through_a_step_output": n_so, "cases_with_a_disabled_property": n_dis,
+            "cases_applied_through_a_step_output": n_so, "cases_on_the_tree_rebuilt_from_its_description": n_rb, "cases_with_a_disabled_property": n_dis,
             "validate_serialize_ops_on_native_values": n_vs, "samples": samples}
 
 
@@ -107,9 +108,15 @@ def scopes_direct(case, obs):
     if len(o) == 2 and o[1] == "build-panic":
         return ("constructing the scope panicked although every self-namespace reference names an object of its own scope "
                 "(references to namespaces that are not applied yet must be left untouched)")
+    if len(o) == 2 and o[1] == "rebuild-failed":
+        return ("the scope was built and described (SelfSerialize), but UnserializeScope does not rebuild it from that "
+                "description: a reference that resolves lexically in the code-built tree must resolve in the rebuilt tree")
     pl = _P.case_payload(case)
     order = [_txt(x) for x in pl[3][1:]]
     so = " [namespaces applied through a StepOutputSchema wrapping the scope]" if pl[3][0] == "order-so" else ""
+    if pl[3][0] == "order-rb":
+        so = (" [the scope tree REBUILT from its description: SelfSerialize, then UnserializeScope — no scope of the tree went "
+              "through NewScopeSchema; the reverse-order state is that of the code-built tree]")
     r = _direct(o, order)
     return (r + so) if r else None
 
@@ -290,9 +297,13 @@ def register(props):
                 "with references to later objects of the nearest scope and to both external namespaces under every container, each "
                 "with 6-9 generated / mutated inputs; 8% of the optional properties are DISABLED (with / without a reason) whatever their "
                 "type — references under them must be linked all the same — and scopes that have one also get native values "
-                "carrying those fields for Validate / Serialize; half of the generated cases (and three fixed ones) apply the "
+                "carrying those fields for Validate / Serialize; a fixed tree of scopes nested DIRECTLY as property types three deep "
+                "(also under a list, a map and as a one-of member), every level re-declaring A and B; a third of the generated cases "
+                "(and three fixed ones) apply the "
                 "namespaces and ask ValidateReferences THROUGH a StepOutputSchema wrapping the scope, the reverse-order run "
-                "applies them to the scope directly. Observed: the link target of EVERY reference occurrence and "
+                "applies them to the scope directly; another third (and seven fixed ones) run on the tree REBUILT from its "
+                "description (SelfSerialize, then UnserializeScope: no scope of the tree went through NewScopeSchema, one ApplySelf "
+                "of the outermost scope links it all), the reverse-order run being the code-built tree. Observed: the link target of EVERY reference occurrence and "
                 "ValidateReferences after construction and after each ApplyNamespace, the final state of the reverse order on a "
                 "fresh build, and unserialize / validate / serialize of every input on the schema and on its mechanically inlined "
                 "partner. distinct by case text; non-trivial = a reference under a container, in a nested scope, or to an external "
